@@ -1961,3 +1961,45 @@ VM('C09', 'stale-error-snapshot-raised', [(SIM, """        started_blocks = set(
 """, """        assert self._error is not None
         raise first_error
 """)], 'R09.2', note='snapshot of the error slot taken before the main try: stale')
+
+# ----------------------------------------------------------------------------- R11.8 / SBlock.event run
+V('C11', 'eventcond-value-required', BLK, "cond_etype = etype.etrue if data.get('value') else etype.efalse",
+  "cond_etype = etype.etrue if data['value'] else etype.efalse", 'R11.8',
+  note="seed C11-8: a conditional event without a 'value' item raises instead of selecting efalse")
+V('C11', 'eventcond-is-true', BLK, "cond_etype = etype.etrue if data.get('value') else etype.efalse",
+  "cond_etype = etype.etrue if data.get('value') is True else etype.efalse", 'R11.8')
+V('C11', 'eventcond-swapped', BLK, "cond_etype = etype.etrue if data.get('value') else etype.efalse",
+  "cond_etype = etype.efalse if data.get('value') else etype.etrue", 'R11.8')
+V('C11', 'eventcond-not-nested', BLK, "            while isinstance(etype, EventCond):\n",
+  "            if isinstance(etype, EventCond):\n", 'R11.8')
+V('C11', 'noevent-after-init', BLK, """                if cond_etype is None:
+                    return None
+                etype = cond_etype
+""", """                etype = cond_etype
+                if etype is None:
+                    break
+""", 'R11.8', note="'no event' falls through to the initialisation and the dispatcher")
+V('C11', 'early-init-outside-window', BLK, """                with self._enable_event:    # type: ignore[attr-defined]
+                    self.circuit.init_sblock(self, full=True)
+""", """                self.circuit.init_sblock(self, full=True)
+""", 'R11.8')
+V('C11', 'early-init-only-step0', BLK, "            if 0 <= self.init_steps_completed < 2:\n",
+  "            if self.init_steps_completed == 0:\n", 'R11.8')
+V('C11', 'handler-gets-dict', BLK, "                    retval = handler(self, **data)\n",
+  "                    retval = handler(self, data)\n", 'R11.8')
+V('C11', 'result-dropped', BLK, "            return retval\n        finally:\n            self._event_active = False\n",
+  "            return None\n        finally:\n            self._event_active = False\n", 'R11.8')
+E('C11', 'eventcond-bool', BLK, "cond_etype = etype.etrue if data.get('value') else etype.efalse",
+  "cond_etype = etype.etrue if bool(data.get('value', None)) else etype.efalse")
+E('C11', 'eventcond-if-stmt', BLK, """                cond_etype = etype.etrue if data.get('value') else etype.efalse
+""", """                if 'value' in data and data['value']:
+                    cond_etype = etype.etrue
+                else:
+                    cond_etype = etype.efalse
+""")
+E('C11', 'early-init-in-tuple', BLK, "            if 0 <= self.init_steps_completed < 2:\n",
+  "            if self.init_steps_completed in (0, 1):\n")
+V('C09', 'abort-any-depth', BLK, "                if err.__traceback__.tb_next is not None:\n",
+  "                if err.__traceback__ is not None:\n", 'R09.3',
+  note="a call with wrong parameters (one traceback level) stops the simulation")
+V('C09', 'abort-without-cause-run', BLK, "                    sim_err.__cause__ = err\n", "                    pass\n", 'R09.3')
